@@ -29,7 +29,7 @@ REAL = ['py4hw.logic.arithmetic_fxp (FixedPointAdd/Sub/Mult/Sign)', 'py4hw.logic
 STUB = ['stimulus']
 ASSUMPTIONS = ['product = exact signed product floored to the result fraction bits, then reduced modulo the result width',
                'comparator only checked where the signed difference is representable in the operand format']
-PROBES = ['most_negative', 'mult_full_width', 'cmp_representable', 'cmp_unrepresentable_skipped', 'wrap_add']
+PROBES = ['squarer', 'mixed_operand_formats', 'most_negative', 'mult_full_width', 'cmp_representable', 'cmp_unrepresentable_skipped', 'wrap_add']
 
 
 def gen(rs, tier, index):
@@ -38,18 +38,30 @@ def gen(rs, tier, index):
     f = rng.randint(0, 16)
     i = rng.randint(0 if f > 0 else 1, min(15, 31 - f))
     af = [1, i, f]
+    bf = list(af)
     rf = list(af)
-    if blk == 'mult' and rng.random() < 0.5:
-        rfrac = rng.randint(0, 2 * f)
-        rint = rng.randint(0 if rfrac > 0 else 1, min(2 * i + 1, max(1, 31 - rfrac)))
-        rf = [1, rint, rfrac]
+    square = False
+    if blk == 'mult':
+        r = rng.random()
+        if r < 0.3:
+            # mixed operand formats (the second operand narrower or wider than the first)
+            f2 = rng.randint(0, 12)
+            i2 = rng.randint(0 if f2 > 0 else 1, min(12, 31 - f2))
+            bf = [1, i2, f2]
+        elif r < 0.45:
+            square = True               # one wire on both operands (a squarer)
+        if rng.random() < 0.5:
+            rfrac = rng.randint(0, af[2] + bf[2])
+            rint = rng.randint(0 if rfrac > 0 else 1, min(af[1] + bf[1] + 1, max(1, 31 - rfrac)))
+            rf = [1, rint, rfrac]
     w = sum(af)
+    wb = sum(bf)
     sr = rs.get('stimulus')
     full = (1 << w) - 1
     special = [0, 1, full, 1 << (w - 1), (1 << (w - 1)) - 1, (1 << (w - 1)) + 1 & full, full - 1]
     n = sr.choice([16, 32]) if tier == 'quick' else sr.choice([32, 64])
     vecs = []
-    if w <= 6 and blk != 'sign':
+    if w <= 6 and blk != 'sign' and wb == w:
         allp = [(a, b) for a in range(1 << w) for b in range(1 << w)]
         sr.shuffle(allp)
         vecs = [list(p) for p in allp[:max(n, 64)]]
@@ -59,23 +71,33 @@ def gen(rs, tier, index):
             b = sr.choice(special) if sr.random() < 0.5 else sr.getrandbits(w)
             if sr.random() < 0.1:
                 b = a
-            vecs.append([a & full, b & full])
+            if wb != w:
+                fb = (1 << wb) - 1
+                b = sr.choice([0, 1, fb, 1 << (wb - 1), (1 << (wb - 1)) - 1, sr.getrandbits(wb)]) & fb
+            vecs.append([a & full, b if wb != w else b & full])
     fr = rs.get('faults')
     steps = [{'vec': v, 'faults': [x for x in ('resort', 'sim_restart', 'extra_settle') if fr.random() < 0.05]} for v in vecs]
-    return {'blk': blk, 'af': af, 'rf': rf, 'steps': steps, 'perm': rs.sub('perm') if fr.random() < 0.7 else None,
+    return {'blk': blk, 'af': af, 'bf': bf, 'square': square, 'rf': rf, 'steps': steps, 'perm': rs.sub('perm') if fr.random() < 0.7 else None,
             'inregs': rng.random() < 0.5}
 
 
 def run(scn, log, st):
     blk, af, rf = scn['blk'], tuple(scn['af']), tuple(scn['rf'])
-    w, rw = sum(af), sum(rf)
+    bf = tuple(scn.get('bf', scn['af']))
+    square = bool(scn.get('square'))
+    w, rw, wb = sum(af), sum(rf), sum(bf)
     hw = py4hw.HWSystem()
-    ins = [hw.wire('a', w), hw.wire('b', w)]
+    ins = [hw.wire('a', w), hw.wire('b', wb)]
     feed = ins
     if scn['inregs']:
-        feed = [hw.wire('qa', w), hw.wire('qb', w)]
+        feed = [hw.wire('qa', w), hw.wire('qb', wb)]
         py4hw.Reg(hw, 'ra', ins[0], feed[0])
         py4hw.Reg(hw, 'rb', ins[1], feed[1])
+    if square:
+        feed = [feed[0], feed[0]]
+        st.probe('squarer')
+    if bf != af:
+        st.probe('mixed_operand_formats')
     outs = {}
     with quiet():
         if blk == 'add':
@@ -86,7 +108,7 @@ def run(scn, log, st):
             FixedPointSub(hw, 'dut', feed[0], af, feed[1], af, outs['r'], af)
         elif blk == 'mult':
             outs['r'] = hw.wire('r', rw)
-            FixedPointMult(hw, 'dut', feed[0], af, feed[1], af, outs['r'], rf)
+            FixedPointMult(hw, 'dut', feed[0], af, feed[1], bf, outs['r'], rf)
         elif blk == 'sign':
             outs['s'] = hw.wire('s')
             FixedPointSign(hw, 'dut', feed[0], af, outs['s'])
@@ -100,7 +122,7 @@ def run(scn, log, st):
         seams.perm_children(hw, random.Random(scn['perm']), st)
     with quiet():
         sim = hw.getSimulator()
-    st.state(blk, af, rf)
+    st.state(blk, af, bf, rf)
     checked = 0
     for si, step in enumerate(scn['steps'], 1):
         for f in step['faults']:
@@ -115,14 +137,16 @@ def run(scn, log, st):
                 sim.propagateAll()
                 st.fault('extra_settle')
         a, b = step['vec']
+        if square:
+            b = a
         ins[0].put(a)
         ins[1].put(b)
         with quiet():
             sim.clk(1)
         st.cycles += 1
         o = {k: x.get() for k, x in outs.items()}
-        sa, sb = S(a, w), S(b, w)
-        if a == 1 << (w - 1) or b == 1 << (w - 1):
+        sa, sb = S(a, w), S(b, wb)
+        if a == 1 << (w - 1) or b == 1 << (wb - 1):
             st.probe('most_negative')
         V = lambda what, detail: Violation('fxp', 'fxp:%s:%s' % (blk, what), si, 'format %s a=%#x b=%#x: %s' % (af, a, b, detail))
         if blk == 'add':
@@ -136,10 +160,10 @@ def run(scn, log, st):
             if o['r'] != exp:
                 raise V('value', 'difference %#x expected %#x' % (o['r'], exp))
         elif blk == 'mult':
-            sh = af[2] + af[2] - rf[2]
+            sh = af[2] + bf[2] - rf[2]
             prod = sa * sb
             exp = M(prod >> sh if sh >= 0 else prod << (-sh), rw)
-            if abs(prod).bit_length() > 2 * w - 3:
+            if abs(prod).bit_length() > w + wb - 3:
                 st.probe('mult_full_width')
             if o['r'] != exp:
                 raise V('value', 'result format %s: product %#x expected %#x' % (rf, o['r'], exp))
